@@ -9,6 +9,7 @@ import (
 	"fmt"
 	"hash/fnv"
 	"os"
+	"runtime"
 	"strings"
 	"sync"
 	"testing"
@@ -274,3 +275,9 @@ func (e *Env) Wait(wg *sync.WaitGroup) {
 
 // Yield is an explicit preemption point for harness client code.
 func (e *Env) Yield() { simhook.Y(1_000_003) }
+
+func stackNow() string {
+	buf := make([]byte, 16<<10)
+	n := runtime.Stack(buf, false)
+	return string(buf[:n])
+}
